@@ -176,9 +176,17 @@ class Run:
         """fails: list of (event, labels).  A 'pre.*' label means the driver was fed something outside
         the operation's domain (infrastructure).  Every other rejected line is re-run (confirm) before
         it is reported; lines whose key is in known_findings.json print KNOWN-FINDING instead."""
+        # a 'pre.*' label: the case fed to the operation was outside its domain.  When the driver prepares an operand with the library
+        # itself (e.g. maps an element into the cyclotomic subgroup first) a broken library can break the preparation: such lines are
+        # set aside, the remaining rejected lines are judged, and only if nothing else is wrong is the run an infrastructure failure
+        pre = [(ev, labels) for ev, labels in fails if any(l.startswith("pre.") for l in labels)]
+        fails = [(ev, labels) for ev, labels in fails if not any(l.startswith("pre.") for l in labels)]
+        if pre and not fails:
+            raise Infra("precondition label %s on generated event %s" % (pre[0][1], json.dumps(_short(pre[0][0]))))
+        if pre:
+            self.notes.append("%d generated case(s) left their operation's domain during preparation by the library under test (first: %s %s); judged through the other rejected lines"
+                              % (len(pre), pre[0][0].get("op"), pre[0][1]))
         for ev, labels in fails:
-            if any(l.startswith("pre.") for l in labels):
-                raise Infra("precondition label %s on generated event %s" % (labels, json.dumps(_short(ev))))
             key = key_of(ev, labels)
             if key in self.known:
                 self.known_hits[key] = self.known_hits.get(key, 0) + 1
